@@ -151,7 +151,9 @@ def seq_position_witness(st, L, esort):
         return
     pos = z3.Function(fresh_name("seqpos"), esort, z3.IntSort())
     x = z3.Const(fresh_name("px"), esort)
-    assume_theorem(st, z3.ForAll([x], z3.Implies(z3.Contains(L, z3.Unit(x)), z3.And(0 <= pos(x), pos(x) < z3.Length(L), L[pos(x)] == x))))
+    body = z3.Implies(z3.Contains(L, z3.Unit(x)), z3.And(0 <= pos(x), pos(x) < z3.Length(L), L[pos(x)] == x))
+    # (explicit patterns on the contains atom were tried: the solvers rewrite that atom and the fact stops firing)
+    assume_theorem(st, z3.ForAll([x], body))
 
 
 def dict_wf(st, t, d, ex=None):
